@@ -20,7 +20,7 @@ CACHE = os.path.join(VERIF, ".cache")
 DRIVER_DIR = os.path.join(VERIF, "driver")
 DRIVER_BIN = os.path.join(DRIVER_DIR, "target", "debug", "jjv-driver")
 TARGET_DIR = os.path.join(CACHE, "target")
-SCHEMA_VERSION = "5"
+SCHEMA_VERSION = "6"
 
 # floors derived from the counts measured on the pinned tree (308 / 8140 / 6536)
 BODY_FLOORS = {"jj_core": 300, "jj_lib": 7800, "jj_cli": 6200}
@@ -135,11 +135,12 @@ class Loader:
         CREATE TABLE aggregate(fn TEXT, root TEXT, bb INT, ak TEXT, adt TEXT, variant TEXT, def TEXT, nops INT, line INT);
         CREATE TABLE lit(fn TEXT, root TEXT, v TEXT);
         CREATE TABLE str_const(fn TEXT, root TEXT, bb INT, v TEXT, item TEXT);
+        CREATE TABLE fnref(fn TEXT, root TEXT, bb INT, target TEXT);
         CREATE TABLE summary(crate TEXT, bodies INT, stolen INT);
         CREATE TABLE stolen(id TEXT);
         """)
         self.rows = {k: [] for k in ("fn", "body", "decl", "adt", "adt_variant", "adt_field", "const", "impl",
-                                     "impl_item", "call", "field_access", "aggregate", "lit", "str_const",
+                                     "impl_item", "call", "field_access", "aggregate", "lit", "str_const", "fnref",
                                      "summary", "stolen")}
 
     # -- per-record handlers -------------------------------------------------
@@ -198,6 +199,8 @@ class Loader:
                 c = o[1]
                 if isinstance(c.get("v"), str) and c.get("slice"):
                     R["str_const"].append((fid, root, bb, c["v"], c.get("item")))
+                if "fn" in c:
+                    R["fnref"].append((fid, root, bb, c["fn"]))
 
         for bb, b in enumerate(r["blocks"]):
             for s in b["s"]:
@@ -264,6 +267,7 @@ class Loader:
         CREATE INDEX agg_adt ON aggregate(adt);
         CREATE INDEX agg_root ON aggregate(root);
         CREATE INDEX lit_root ON lit(root);
+        CREATE INDEX fnref_root ON fnref(root);
         CREATE INDEX impl_item_t ON impl_item(trait_item);
         CREATE INDEX impl_item_i ON impl_item(impl_item);
         CREATE INDEX adt_field_a ON adt_field(adt);
